@@ -207,6 +207,7 @@ impl C16 {
         let term = (Ipv4Addr::new(0, 0, 0, 0), 0u16);
         // where the listing ends: terminator as last entry of the last page, as the only entry, an empty page, or never (server falls silent)
         let ending = cx.rng.below(5);
+        let mut no_progress = false;
         for k in 0 .. n_pages {
             let n = match cx.rng.below(5) {
                 0 => 1,
@@ -222,6 +223,12 @@ impl C16 {
                     match cx.rng.below(6) {
                         0 => *e.last_mut().unwrap() = (prev.0, if prev.1 == 65535 { 1 } else { prev.1 + 1 }),
                         1 => *e.last_mut().unwrap() = (Ipv4Addr::new(prev.0.octets()[0], prev.0.octets()[1], prev.0.octets()[2], prev.0.octets()[3] ^ 1), prev.1),
+                        // a master that does not advance: the page ends on the very address it was asked to continue from;
+                        // its entries still belong to the listing, and the query stops there
+                        2 => {
+                            *e.last_mut().unwrap() = prev;
+                            no_progress = true;
+                        }
                         _ => {}
                     }
                 }
@@ -322,6 +329,9 @@ impl C16 {
                             cx.shape(&shape);
                             cx.nontrivial(hash64(shape.as_bytes()) ^ hash64(&reqs.concat()));
                             cx.count("paging-ok");
+                            if no_progress {
+                                cx.count("paging-ok-with-a-page-that-does-not-advance");
+                            }
                         }
                     }
                 }
@@ -501,5 +511,5 @@ impl Check for C16 {
         }
         Ok(())
     }
-    fn extra_coverage(&self, tier: Tier, m: &Stats) -> Value { json!({"sequences_len1": m.counters.get("seq-len1"), "sequences_len2": m.counters.get("seq-len2"), "sequences_len3": m.counters.get("seq-len3"), "len3_exhaustive": tier == Tier::Thorough, "paging_histories_ok": m.counters.get("paging-ok"), "reused_instance_histories_ok": m.counters.get("paging-reuse-ok")}) }
+    fn extra_coverage(&self, tier: Tier, m: &Stats) -> Value { json!({"sequences_len1": m.counters.get("seq-len1"), "sequences_len2": m.counters.get("seq-len2"), "sequences_len3": m.counters.get("seq-len3"), "len3_exhaustive": tier == Tier::Thorough, "paging_histories_ok": m.counters.get("paging-ok"), "histories_with_a_page_that_does_not_advance_ok": m.counters.get("paging-ok-with-a-page-that-does-not-advance"), "reused_instance_histories_ok": m.counters.get("paging-reuse-ok")}) }
 }
